@@ -7,6 +7,7 @@ import PyGqlModel.PrintString
 import PyGqlModel.Spec.Lexical
 import PyGqlModel.Spec.BlockStringSpec
 import PyGqlModel.Utf8
+import PyGqlModel.ParseLazy
 import Driver.ParseOps
 open PyGql
 
@@ -61,8 +62,14 @@ def handle? (j : J) : Option J :=
     let render (pos : Nat) : List (String × J) :=
       [("pos", J.ofNat pos), ("str_ok", .bool (StringUtils.highlighted s pos).isSome),
        ("dict", ofLoc (StringUtils.toDict s pos))]
+    -- the LAZY token window (ParseLazy.lean): which of a grammatical and a later lexical error the real parser reports
+    let lazyErr (le : Lex.SynErr) : List (String × J) :=
+      match Driver.ParseOps.parseEntry (j.strD "entry") (Driver.ParseOps.flagsOfJson j) (Lex.lexPrefix s).1 with
+      | .error pe => if pe.eof then [("lazy_stage", .str "lex"), ("lazy_pos", J.ofNat le.pos)]
+                     else [("lazy_stage", .str "parse"), ("lazy_pos", J.ofNat pe.pos)]
+      | .ok _ => [("lazy_stage", .str "lex"), ("lazy_pos", J.ofNat le.pos)]
     some <| match Lex.lexAll s with
-    | .error e => .obj [("err", .obj ([("stage", .str "lex")] ++ render e.pos))]
+    | .error e => .obj [("err", .obj ([("stage", .str "lex")] ++ render e.pos ++ lazyErr e))]
     | .ok toks =>
       match Driver.ParseOps.parseEntry (j.strD "entry") (Driver.ParseOps.flagsOfJson j) toks with
       | .ok (ast, _) => .obj [("ok", ast)]
